@@ -45,7 +45,9 @@ MCFieldSet(c) ==
 \* every interaction of up to t settings (t-way coverage) instead of the full
 \* cross product; the thorough instance leaves it unbounded
 B2N(b) == IF b THEN 1 ELSE 0
-FieldDev(f) == B2N(f.dbg # Own) + B2N(f.key # "")
+\* all settings of one field count as one deviation (so that a field with both a rename and a method still
+\* fits next to one more setting elsewhere)
+FieldDev(f) == B2N(f.dbg # Own \/ f.key # "")
 RECURSIVE FieldsDev(_)
 FieldsDev(fs) == IF fs = <<>> THEN 0 ELSE FieldDev(Head(fs)) + FieldsDev(Tail(fs))
 VarDev(var) == B2N(var.dname # "default") + B2N(var.dnf # "default") + FieldsDev(var.fields)
